@@ -60,8 +60,14 @@ def _chunk_runner(chunk):
     return out
 
 
-def pmap(func, items, args=(), chunk=None, nproc=None):
-    """Evaluate func(item, *args) for all items in forked children; yields (item, result)."""
+def pmap(func, items, args=(), chunk=None, nproc=None, fresh=True):
+    """Evaluate func(item, *args) for all items in forked children; returns [(item, result)].
+
+    fresh=True : every chunk runs in a newly forked child of the (pristine) parent.
+    fresh=False: long-lived workers (forking is expensive in this sandbox: copy-on-write
+                 faults serialise); used where the evaluated function resets and verifies
+                 the planner state itself (mc/pristine.py).
+    """
     global _FUNC, _ARGS
     items = list(items)
     if not items:
@@ -72,12 +78,8 @@ def pmap(func, items, args=(), chunk=None, nproc=None):
     chunks = [items[i : i + chunk] for i in range(0, len(items), chunk)]
     _FUNC, _ARGS = func, args
     results = []
-    if nproc == 1 or len(chunks) == 1 and False:
-        for c in chunks:
-            results.extend(_chunk_runner(c))
-        return results
     ctx = mp.get_context("fork")
-    with ctx.Pool(min(nproc, len(chunks)), maxtasksperchild=1) as pool:
+    with ctx.Pool(min(nproc, len(chunks)), maxtasksperchild=1 if fresh else None) as pool:
         for res in pool.imap(_chunk_runner, chunks):
             results.extend(res)
     return results
@@ -144,8 +146,8 @@ class Ctx:
     def out_of_time(self):
         return self.elapsed() > self.budget_s
 
-    def map(self, evaluate, cases, args=(), chunk=None):
-        res = pmap(evaluate, cases, args=args, chunk=chunk)
+    def map(self, evaluate, cases, args=(), chunk=None, fresh=True):
+        res = pmap(evaluate, cases, args=args, chunk=chunk, fresh=fresh)
         for case, r in res:
             self.evaluations += 1
             st = r.get("status", "?")
